@@ -335,9 +335,13 @@ func c07Check(cs c07Case) (kind, detail string) {
 		default:
 			return "skip", ""
 		}
-	case "copy-then-edit":
-		// copy the target next to itself, then edit the copy: the original must not change with it
+	case "copy-then-edit", "copy-then-rename-key":
+		// copy the target next to itself, then edit the copy (a value of it, or the key node of one of its entries): the original
+		// must not change with it
 		if len(cs.Target) == 0 || strings.HasPrefix(cs.Target[len(cs.Target)-1], "#") || len(tv.Vals) == 0 {
+			return "skip", ""
+		}
+		if cs.Update == "copy-then-rename-key" && tv.K != val.Map {
 			return "skip", ""
 		}
 		parent := c07PathExpr(cs.Target[:len(cs.Target)-1])
@@ -349,6 +353,9 @@ func c07Check(cs c07Case) (kind, detail string) {
 			first = ".[" + strconv.Quote(tv.Keys[0].S) + "]"
 		}
 		expr = parent + ".copy = " + p + " | " + parent + ".copy" + first + ` = "edited"`
+		if cs.Update == "copy-then-rename-key" {
+			expr = parent + ".copy = " + p + " | (" + parent + ".copy" + first + ` | key) = "renamed"`
+		}
 		pp := "/" + strings.Join(cs.Target[:len(cs.Target)-1], "/")
 		if len(cs.Target) == 1 {
 			pp = ""
@@ -476,6 +483,9 @@ func c07Check(cs c07Case) (kind, detail string) {
 	ukind := cs.Update
 	if ukind == "delete-via-key" {
 		ukind = "delete"
+	}
+	if ukind == "copy-then-rename-key" {
+		ukind = "copy-then-edit"
 	}
 	wholeTarget := ukind != "create-below" && ukind != "create-beside" && ukind != "append" && ukind != "copy-then-edit"
 	commentInT := func(text string) bool {
@@ -718,7 +728,7 @@ func c07Run(c *fw.Ctx) error {
 	for _, e := range []string{`{"k": [1, "a", 1], "m": {"k": "a", "m": 1}}`, `[{"k": 1, "m": "a"}, {"k": "a"}, 1]`, `{"k": {"m": [1, {"k": "a"}]}, "m": 1}`} {
 		shapes = append(shapes, fromJSONText(e))
 	}
-	kinds := []string{"scalar", "subtree", "delete", "delete-via-key", "append", "arith", "create-below", "create-beside", "copy-then-edit", "copy-into-seq-then-delete-first"}
+	kinds := []string{"scalar", "subtree", "delete", "delete-via-key", "append", "arith", "create-below", "create-beside", "copy-then-edit", "copy-then-rename-key", "copy-into-seq-then-delete-first"}
 	var kindDecos [][2]string
 	for _, deco := range []string{"", "foots", "aliases"} {
 		for _, k := range kinds {
